@@ -95,7 +95,7 @@ func propC07(e *Env) {
 	case 2:
 		loc, locName = time.FixedZone("plus5", 5*3600), "+05:00"
 	case 3:
-		loc, locName = time.FixedZone("minus9:30", -(9*3600 + 1800)), "-09:30"
+		loc, locName = time.FixedZone("minus9:30", -(9*3600+1800)), "-09:30"
 	}
 	useYear := e.Bool("knob")
 	c, err := compiler.New()
